@@ -54,6 +54,11 @@ add("C04", "fault_enumeration",
     "The quick tier uses a 6-value menu per byte for the multi-chunk message (full sweep in thorough). Damage is a single contiguous or two-point alteration; bursts are not enumerated.",
     "exhaustive fault enumeration (offset x alteration menu) on two real Sessions over the deterministic link with a man in the middle", "link", "DESIGN.md §5 C04")
 
+add("C16", "model_checking",
+    "A real slave Session is run against a scripted master issuing ;PQ for every decimal challenge of length 1..5 (thorough 6), the ten dddddddd challenges, the published vector and alphanumeric/64-character ones, x six passwords (ASCII, tilde, one character, 40 characters, Latin-1, with spaces); 12 auxiliary-address configurations (password known / unknown / callback error, up to three addresses) and nil / failing callbacks on a sub-lattice. Oracle: ;PR equals an independent implementation of the stated algorithm, ;FW items are addr|response iff the password is known, handshake fails without callback or on a callback error for the main address, no password bytes in anything the Session wrote. Digest classes hit are counted in the evidence.",
+    "The reference is written from the property text and anchored to the published vector 23753528/FOOBAR -> 72768415. Challenges with surrounding whitespace are excluded (the line reader trims).",
+    "bounded-exhaustive enumeration of challenges x passwords x aux configurations against an independent reference", "link", "DESIGN.md §5 C16")
+
 ids = [json.loads(l)["id"] for l in open("/verif/properties.jsonl")]
 na = [dict(property_id=i, reason="check not built yet in this session (planned, see DESIGN.md §5); not claimed until its command exists and is green") for i in ids if i not in checks]
 m = dict(version=1,
